@@ -106,6 +106,10 @@ impl CommandDefinition {
 
         attr.parse_nested_meta(|meta| {
             if meta.path.is_ident("cmd") {
+                if cmd.is_some() {
+                    // The first name would be dropped silently.
+                    return Err(meta.error("Duplicate SCPI command name"));
+                }
                 if let Lit::Str(name) = meta.value()?.parse()? {
                     cmd = Some(name.value());
                     Ok(())
